@@ -15,12 +15,17 @@ mod c19;
 mod dump;
 mod fsops;
 mod fsutil;
+mod lt;
 mod util;
 
 fn main() {
     let args: Vec<String> = std::env::args().collect();
     if args.get(1).map(String::as_str) == Some("c19_child") {
         c19::child();
+        return;
+    }
+    if args.get(1).map(String::as_str) == Some("lt_child") {
+        lt::child();
         return;
     }
     if args.get(1).map(String::as_str) == Some("execd_child") {
@@ -45,6 +50,7 @@ fn main() {
         "c13" => cases.iter().map(c13::run).collect(),
         "c14" => cases.iter().map(c14::run).collect(),
         "c18" => cases.iter().map(c18::run).collect(),
+        "lt" => cases.iter().map(lt::run).collect(),
         other => {
             eprintln!("unknown stream {other}");
             std::process::exit(2);
